@@ -5,7 +5,7 @@ V = os.path.dirname(os.path.dirname(os.path.abspath(__file__)))
 p = os.path.join(V, "props_index.json")
 d = json.load(open(p))
 def kind(n):
-    return "counterexample" if ("counterexample" in n or n.endswith("_witness")) else "partial" if "_partial" in n else "full"
+    return "counterexample" if ("counterexample" in n or n.endswith("_witness") or n.endswith("_tight")) else "partial" if "_partial" in n else "full"
 pid = sys.argv[1]
 trusted = sys.argv[2:]
 src = open(os.path.join(V, "lean", "Pog", "Props", pid + ".lean")).read()
